@@ -79,7 +79,7 @@ CLAIMED = {
    ref="4 C16"),
  "C20": dict(
    technique="constant propagation of the separator table's init loops (cross product of literals) compared with the CSS Syntax §9 fusing-pair oracle + vocabulary agreement with Kind.String() + ParseError kind coverage + escaper case sets",
-   text="Decides necessary conditions of serialize/re-tokenize round-tripping: every fusing pair of adjacent token kinds gets a separator, no row of the table is dead through a misspelt kind, every token-level ParseError kind is serialisable, and the string/url/name escapers cover the required characters. Identifier-start escaping, the scientific-notation ambiguity and number representation are not decided.",
+   text="Decides necessary conditions of serialize/re-tokenize round-tripping: every fusing pair of adjacent token kinds gets a separator, no row of the table is dead through a misspelt kind, every token-level ParseError kind is serialisable, the string/url/name escapers cover the required characters, an escaped leading digit is a terminated escape, the character after a leading dash is escaped as an identifier start, units that look like an exponent are escaped with their own letter, and literal tokens that fuse (computed from the tokenizer's own vocabulary: `|` before `||` or `|=`) get a separator. Number representation (values built in code) is not decided.",
    ref="4 C20"),
 }
 
